@@ -62,6 +62,7 @@ partial def progOfJ : J → Option Prog
   | .arr [.str "act", .str n, .str "wrapped_probe"] => (mgrOfName n).map .probe
   | .arr [.str "act", .str _, .str _] => some .skip
   | .arr [.str "raise"] => some .raise
+  | .arr [.str "fail", .str e] => some (.fail e)
   | .arr [.str "seq", p, q] => do pure (.seq (← progOfJ p) (← progOfJ q))
   | .arr [.str "try", p] => do pure (.try_ (← progOfJ p))
   | .arr [.str "probe", .str n] => (mgrOfName n).map .probe
